@@ -59,3 +59,27 @@ pub fn verif_write3<A: DispSpec, B: DispSpec, C: DispSpec>(f: &mut std::fmt::For
 // std: a Vec never holds more than isize::MAX elements
 pub broadcast axiom fn ax_vec_len_fits<T>(v: Vec<T>)
     ensures #[trigger] v@.len() <= usize::MAX;
+
+// ---- what Display for BoundSet / Range writes (the printed form of an interval, by shape; alternatives joined by `||`)
+pub open spec fn pair_text(a: Seq<char>, v: Version, b: Seq<char>, w: Version) -> Seq<char> { a + ver_text(v) + b + ver_text(w) }
+pub open spec fn bs_text(bs: BoundSet) -> Seq<char> {
+    match (*bs.lower, *bs.upper) {
+        (Bound::Lower(Predicate::Unbounded), Bound::Upper(Predicate::Unbounded)) => "*"@,
+        (Bound::Lower(Predicate::Unbounded), Bound::Upper(Predicate::Including(v))) => "<="@ + ver_text(v),
+        (Bound::Lower(Predicate::Unbounded), Bound::Upper(Predicate::Excluding(v))) => "<"@ + ver_text(v),
+        (Bound::Lower(Predicate::Including(v)), Bound::Upper(Predicate::Unbounded)) => ">="@ + ver_text(v),
+        (Bound::Lower(Predicate::Excluding(v)), Bound::Upper(Predicate::Unbounded)) => ">"@ + ver_text(v),
+        (Bound::Lower(Predicate::Including(v)), Bound::Upper(Predicate::Including(w))) => if ver_cmp(v, w) == Ordering::Equal { ver_text(v) } else { pair_text(">="@, v, " <="@, w) },
+        (Bound::Lower(Predicate::Including(v)), Bound::Upper(Predicate::Excluding(w))) => pair_text(">="@, v, " <"@, w),
+        (Bound::Lower(Predicate::Excluding(v)), Bound::Upper(Predicate::Including(w))) => pair_text(">"@, v, " <="@, w),
+        (Bound::Lower(Predicate::Excluding(v)), Bound::Upper(Predicate::Excluding(w))) => pair_text(">"@, v, " <"@, w),
+        _ => Seq::<char>::empty(),
+    }
+}
+impl DispSpec for BoundSet { open spec fn disp(&self) -> Seq<char> { bs_text(*self) } }
+pub open spec fn alts_text(s: Seq<BoundSet>, k: int) -> Seq<char>
+    decreases k
+{
+    if k <= 0 { Seq::<char>::empty() } else { alts_text(s, k - 1) + (if k == 1 { Seq::<char>::empty() } else { "||"@ }) + bs_text(s[k - 1]) }
+}
+impl DispSpec for Range { open spec fn disp(&self) -> Seq<char> { alts_text(self.0@, self.0@.len() as int) } }
